@@ -7,12 +7,13 @@ package main
 //	    start of the case; tokens seconds in the past / fractions of a second in the future), sleeping sleeps[i] ms
 //	    before the i-th Wait (unit=us: both in microseconds). slownext: the schedule needs that long to hand a token out
 //	    (a contended shared schedule); the pick-up instant is taken when it returns.
-//	mode=engine inst=<n> prof=<once:N|const:OPS:MS>[+...] resp=<ms,...> discard=<0|1> [perinst=1]
-//	    the real engine (engine.New(...).Run) with n instances (startup once(n)), the real schedule constructors,
+//	mode=engine inst=<n> prof=<once:N|const:OPS:MS>[+...] resp=<ms,...> discard=<0|1> [perinst=1] [startup=<profile>]
+//	    the real engine (engine.New(...).Run) with n instances (startup once(n), or the given startup schedule: instances are
+//	    started over time, so an instance can find its FIRST token already late), the real schedule constructors,
 //	    provider.NewNum, a gun that records the instant of Shoot entry and then sleeps resp[k mod len] ms (k = number of
 //	    the shot of that instance), an aggregator that records every Report.
 //
-//	mode=proc given=<none|true|false> lat=<ms> times=<N>
+//	mode=proc given=<none|true|false> lat=<ms> times=<N> [pools=<k>] [fmt=yaml|json|toml|stdin] [key=upper] [anchor=1]
 //	    the real pandora BINARY (go build of <repo>/main.go) with a yaml config whose pool section does not mention
 //	    discard_overflow / says true / says false, profile once(N), one instance, http gun against an in-process target that
 //	    answers after lat ms, phout result file: ties cli.readConfig's default, the config decoding, the wiring into the
@@ -336,6 +337,17 @@ func runEngine(m map[string]string) string {
 		StartupSchedule: schedule.NewOnce(inst),
 		DiscardOverflow: m["discard"] == "1",
 	}
+	if su := m["startup"]; su != "" {
+		// instances are started over time; their number is the number of tokens of the startup schedule
+		n := int64(0)
+		for cp := buildProfile(su); n < 1000; n++ {
+			if _, ok := cp.Next(); !ok {
+				break
+			}
+		}
+		inst = n
+		conf.StartupSchedule = buildProfile(su)
+	}
 	if conf.RPSPerInstance {
 		total *= int(inst)
 	}
@@ -544,6 +556,11 @@ func genEngine(r *rand.Rand, thorough bool) string {
 	s := fmt.Sprintf("mode=engine inst=%d prof=%s resp=%s discard=%d", inst, prof, joinInts(resp), discard)
 	if inst > 1 && r.Intn(5) == 0 {
 		s += " perinst=1"
+	} else if inst > 1 && discard == 1 && r.Intn(4) == 0 {
+		// the instances are started one after the other (0.33 .. 1.4 s apart): late starters find their first token late
+		gap := []string{"3", "1.25", "0.7"}[r.Intn(3)]
+		ms := map[string]int{"3": 334, "1.25": 800, "0.7": 1429}[gap] * inst
+		s = strings.Replace(s, fmt.Sprintf("inst=%d ", inst), fmt.Sprintf("inst=%d startup=const:%s:%d ", inst, gap, ms+1), 1)
 	}
 	if r.Intn(12) == 0 {
 		s += fmt.Sprintf(" cancel=%d", 300+r.Intn(3000))
@@ -559,7 +576,13 @@ func gen(r *rand.Rand, tier string) []string {
 		"mode=proc given=none lat=800 times=6",
 		"mode=proc given=false lat=800 times=5",
 		"mode=proc given=true lat=800 times=6",
-		"mode=proc given=none lat=800 times=5 pools=2")
+		"mode=proc given=none lat=800 times=5 pools=2",
+		// the same option through the other ways a config can reach readConfig: json and toml files, yaml on standard input,
+		// an upper-case key (config keys are case-insensitive), a pool section taken over through a yaml merge key
+		"mode=proc given=none lat=800 times=5 fmt=json",
+		"mode=proc given=none lat=800 times=5 fmt=stdin",
+		"mode=proc given=false lat=800 times=5 key=upper fmt=toml",
+		"mode=proc given=none lat=800 times=5 pools=2 anchor=1")
 	// scripted engine scenarios: single and several instances, const/once profiles, response-time histories 0 / 0.3 s /
 	// 1 s / 3 s and mixtures
 	quick := []string{
@@ -575,6 +598,10 @@ func gen(r *rand.Rand, tier string) []string {
 		"mode=engine inst=1 prof=const:10:3000 resp=1000 discard=1 cancel=2500",
 		"mode=engine inst=4 prof=line:2:12:2000 resp=700,2100 discard=1",
 		"mode=engine inst=8 prof=step:4:12:4:500 resp=1500 discard=1",
+		// instances started 0.8 s apart: the fourth one finds its first token 2.4 s late
+		"mode=engine inst=5 startup=const:1.25:4001 prof=once:9 resp=3000 discard=1",
+		"mode=engine inst=3 startup=const:0.7:4288 prof=const:10:3000 resp=4000,0 discard=1",
+		"mode=engine inst=3 startup=const:0.7:4288 prof=once:5 resp=300 discard=0",
 	}
 	out = append(out, quick...)
 	ne, nw, nn, nc := 10, 40, 16, 3
@@ -587,6 +614,14 @@ func gen(r *rand.Rand, tier string) []string {
 					out = append(out, fmt.Sprintf("mode=proc given=%s lat=%d times=%d pools=%d", g, lat, times, 2+times%2))
 				}
 			}
+			for _, f := range []string{"json", "toml", "stdin"} {
+				out = append(out, fmt.Sprintf("mode=proc given=%s lat=800 times=5 fmt=%s", g, f))
+				out = append(out, fmt.Sprintf("mode=proc given=%s lat=900 times=4 fmt=%s pools=2", g, f))
+				if g != "none" {
+					out = append(out, fmt.Sprintf("mode=proc given=%s lat=800 times=5 fmt=%s key=upper", g, f))
+				}
+			}
+			out = append(out, fmt.Sprintf("mode=proc given=%s lat=800 times=5 pools=3 anchor=1", g))
 		}
 		// the grid: instance counts x response-time histories x discard_overflow
 		for _, inst := range []int{1, 2, 3, 4, 8, 16} {
@@ -638,6 +673,12 @@ func class(in, obs string) string {
 		if m["pools"] != "" {
 			c += "/pools=" + m["pools"]
 		}
+		if m["fmt"] != "" {
+			c += "/" + m["fmt"]
+		}
+		if m["key"] != "" || m["anchor"] != "" {
+			c += "/key-or-merge"
+		}
 		if o["disc"] != "0" {
 			c += "/discards"
 		}
@@ -652,6 +693,9 @@ func class(in, obs string) string {
 		c += "/discard=" + m["discard"]
 		if m["inst"] != "1" {
 			c += "/multi"
+		}
+		if m["startup"] != "" {
+			c += "/late-starters"
 		}
 		if _, ok := m["cancel"]; ok {
 			c += "/cancel"
@@ -695,9 +739,9 @@ func main() {
 		Timeout: 120 * time.Second,
 		Rule: "real-time runs of the real code, every instant taken on the monotonic clock: (a) the engine (engine.New(...).Run) on scripted and PRNG-drawn scenarios - " +
 			"1..16 instances, shared or per-instance once/const/line/step/composite profiles from the real constructors, response-time histories of 1..5 entries from " +
-			"0..4 s (slower than the inter-request interval and than 2 s), discard_overflow on and off, some runs cancelled; (b) the bare coreutil.Waiter on scripted schedules: " +
+			"0..4 s (slower than the inter-request interval and than 2 s), discard_overflow on and off, some runs cancelled, instances started at once or one after the other (late starters); (b) the bare coreutil.Waiter on scripted schedules: " +
 			"tokens seconds in the past / up to 0.4 s in the future relative to time.Now(), real sleeps between calls, lateness far from, a few ms and a few hundred µs around " +
-			"the 2 s threshold, cancellation during the timer sleep; (c) the pandora binary with yaml configs that omit / set discard_overflow against a slow in-process HTTP " +
-			"target. Every decision is judged against the measured [pick-up, action] interval. non-trivial = at least one token drawn (proc: the process ran)",
+			"the 2 s threshold, cancellation during the timer sleep; (c) the pandora binary with yaml / json / toml / stdin configs (1..3 pools, upper-case key, yaml merge key) that omit / set discard_overflow against a slow in-process HTTP " +
+			"target that counts the requests it receives. Every decision is judged against the measured [pick-up, action] interval. non-trivial = at least one token drawn (proc: the process ran)",
 	})
 }
